@@ -10,29 +10,36 @@ THEOREMS = ["C17_up_exactly_once_in_order", "C17_unreachable_reported", "C17_fre
             "C17_no_blackhole", "C17_blackhole_pinned_refuted", "C17_blackhole_is_permanent",
             "C17_connection_loss_drops_silently", "C17_oracle_up_holds_for_every_drained_schedule",
             "C17_oracle_holds_of_model"]
-RULE = ("(net) real engines with real remotes over loopback TCP in one process, addresses private to the harness process: "
-        "'up' = k senders (goroutines, goroutines with a sender PID, actors) x n numbered messages over several recording "
-        "actors on 1-2 peers plus requests across nodes, closed by per-sender fences; 'down' = messages for an address "
-        "nobody listens on (monitor: RemoteUnreachableEvent, DeadLetterEvents with the streamDeliver opened by a hook), then "
-        "the peer is started there and more messages are sent (one episode of 3 s dial back-off in the quick tier, several in "
-        "parallel processes in the thorough tier); 'stop' = every Start/Stop call sequence up to length 4 with a TCP probe of "
-        "the listener after each call, and engine-level probes (another node sends a message). (race) the real router actor and "
-        "real stream writers with inbox.go / registry.go under the deterministic scheduler and an in-memory connection: a "
-        "goroutine runs W1.Shutdown() (what the writer's goroutine does once conn.Closed() fires) against sender goroutines and "
-        "all inbox workers; schedules enumerated by DFS with visited-state pruning (exhaustive for the smallest configuration in "
-        "the thorough tier), sampled by seeded random walks, and one recorded schedule replayed; each distinct terminal "
-        "observation must be a terminal observation of the interleaving machine of Remote.v (enumerated in Coq) and must not be "
-        "black-holed. A case is non-trivial when it reaches one of the tagged situations (several senders / targets / peers, "
-        "sender PIDs, replies, unreachable episode, fresh attempt, Start twice, Stop twice, Start after Stop, dead letter "
-        "between Remove and the notification, message stuck in a stopped inbox, fresh writer spawned)")
+RULE = ("one pool of harness processes runs (net, binary hvn) real engines with real remotes over loopback TCP, addresses private to "
+        "the harness process: 'up' = k senders (goroutines, goroutines with a sender PID, actors) x n numbered messages over several "
+        "recording actors on 1-2 peers nobody has talked to yet (the senders start at once, so the first messages race the set-up of "
+        "the connection) plus requests across nodes, closed by per-sender fences; burst variants with thousands of messages per sender "
+        "run several rounds on fresh addresses; 'down' = messages for an address nobody listens on (monitor: RemoteUnreachableEvent, "
+        "DeadLetterEvents with the streamDeliver opened by a hook), then the peer is started there and more messages are sent (one "
+        "episode of 3 s dial back-off in the quick tier, several side by side in the thorough tier); 'reconnect' = the peer is "
+        "restarted on its address while senders keep sending bursts (what arrives, over the incarnations in turn, must be per sender "
+        "without repetition and in order); 'churn' (thorough) = ten restarts under a trickle of messages, then a fresh attempt must "
+        "deliver; 'stop' = every Start/Stop call sequence up to length 4 with a TCP probe of the listener after each call, and "
+        "engine-level probes (another node sends a message); and (race, binary hvr) the real router actor and real stream writers with "
+        "inbox.go / registry.go under the deterministic scheduler and an in-memory connection: a goroutine runs W1.Shutdown() (what the "
+        "writer's goroutine does once conn.Closed() fires) against sender goroutines and all inbox workers; schedules enumerated by DFS "
+        "with visited-state pruning (exhaustive for the smallest configuration in the thorough tier), sampled by seeded random walks, and "
+        "one recorded schedule (the D12 witness) replayed; each distinct terminal observation must be a terminal observation of the "
+        "interleaving machine of Remote.v (enumerated in Coq) and must not be black-holed. Observations of what recording actors received "
+        "are projected per sender and run-length encoded by the harness. A case is non-trivial when it reaches one of the tagged "
+        "situations (several senders / targets / peers, sender PIDs, replies, unreachable episode, fresh attempt, Start twice, Stop "
+        "twice, Start after Stop, dead letter between Remove and the notification, message stuck in a stopped inbox, fresh writer "
+        "spawned, reconnect with losses)")
 EXHAUSTIVE = False
 TRUSTED_BASE = [
     "Coq 8.16.1 kernel; vm_compute (model runs on the cases, enumeration of the interleaving machine, the witness schedule); no native_compute",
     "axioms: none (Print Assumptions below)",
-    "correspondence harness: /verif/harness cmd/hv family remote17 (public API + hook file tools/hooks/remote/remote17.go: "
-    "opens a streamDeliver, router PID), cmd/hvr family remote17race (tools/shimgen import rewrites of inbox.go, registry.go and "
-    "— import \"net\" -> verifshim/ynet only — stream_writer.go; tools/verifshim/vsched; hook files tools/hooks/remote/remote17.go, "
-    "tools/hooks/actor/remote17.go), vlib/props/c17.py",
+    "correspondence harness: /verif/harness cmd/hvn family remote17 (public API + hook files tools/hooks/remote/remote17.go: opens a "
+    "streamDeliver, router PID; tools/hooks/actor/{hooks,remote17}.go: idleness of an actor), cmd/hvr family remote17race "
+    "(tools/shimgen import rewrites of inbox.go, registry.go and — import \"net\" -> verifshim/ynet only — stream_writer.go; "
+    "tools/verifshim/vsched; the same hook files plus tools/hookx/remote/race17.go: the router's producer and a streamDeliver "
+    "constructor), both built by vlib/props/c17.py with an overlay of exactly these files, and the front script hvx it writes "
+    "(routes each case to its binary); the per-sender projection and run-length encoding of what was received is done by the harness",
     "modelled not verified: dRPC/TCP is a reliable FIFO channel while the connection is up (section 3.7); the inbox layer gives "
     "per-inbox FIFO, exactly once, one batch at a time (C01-C03) — the router's and the writers' inboxes are lists; payload "
     "(de)serialisation is an oracle with deser(ser m) = m (C15's hypothesis); the three dial attempts of one init see the same "
@@ -58,12 +65,9 @@ ORDER = {"notify-first": "Pinned", "remove-first": "Repaired", "": "Repaired"}
 D12_WITNESS = [0, 0, 0, 0, 0, 0, 0, 1, 1, 1, 1, 1, 1]
 
 
-_BG = {}
-
-
 class _SubWork:
-    """a sub-directory of the invocation's scratch directory: the two harness builds that run side by side
-    must not share go.mod / overlay.json"""
+    """a sub-directory of the invocation's scratch directory (harness builds that run side by side must not
+    share go.mod / overlay.json)"""
     def __init__(self, work, name):
         self.dir = work.path(name)
         os.makedirs(self.dir, exist_ok=True)
@@ -72,28 +76,37 @@ class _SubWork:
         return os.path.join(self.dir, *p)
 
 
-def build(binary, work):
-    """hv and hvr are built side by side: asking for the first starts the other in a thread"""
-    import threading
-    if not _BG:
-        other = "hvr" if binary != "hvr" else "hv"
-        box = {}
-        th = threading.Thread(target=lambda: box.setdefault("r", _build(other, _SubWork(work, "build-" + other))), daemon=True)
-        th.start()
-        _BG[other] = (th, box)
-        return _build(binary, _SubWork(work, "build-" + binary))
-    if binary in _BG:
-        th, box = _BG[binary]
-        th.join()
-        return box.get("r", (None, "background build failed"))
-    return _build(binary, _SubWork(work, "build-" + binary))
+# The two harness binaries of this check are built with an overlay that holds only the hook files they
+# use, so that a change in /repo that breaks another check's hook file (e.g. a new parameter of an
+# unexported constructor of package remote) does not keep this check from running its scenarios.
+HOOKS_NET = [("actor", "hooks.go"), ("actor", "remote17.go"), ("remote", "remote17.go")]
 
 
-def _build(binary, work):
-    if binary != "hvr":
-        return C.build_harness(work, binary)
+def _hook_overlay(hooks):
+    return {os.path.join(C.REPO, pkg, "zz_verif_" + f): os.path.join(C.VERIF, "tools", "hooks", pkg, f) for pkg, f in hooks}
+
+
+def _go_build(work, binary, repl):
+    modsrc = open(os.path.join(C.HARNESS, "go.mod")).read().replace("=> /repo", "=> " + C.REPO)
+    modfile = work.path("go.mod")
+    open(modfile, "w").write(modsrc)
+    import shutil, json
+    shutil.copy(os.path.join(C.REPO, "go.sum"), work.path("go.sum"))
+    overlay = work.path("overlay.json")
+    json.dump({"Replace": repl}, open(overlay, "w"), indent=1)
+    out_bin = work.path(binary)
+    rc, out = C.sh(["go", "build", "-modfile", modfile, "-tags", "verif", "-overlay", overlay, "-o", out_bin, "./cmd/" + binary],
+                   cwd=C.HARNESS, env=dict(C.GOENV), timeout=900)
+    return (out_bin if rc == 0 else None), out
+
+
+def _build_hvn(work):
+    return _go_build(work, "hvn", _hook_overlay(HOOKS_NET))
+
+
+def _build_hvr(work):
     try:
-        extra = C.shim_overlay(work)    # the scheduler shims of inbox.go / registry.go / ringbuffer.go (builds shimgen)
+        repl = dict(C.shim_overlay(work))   # the scheduler shims of inbox.go / registry.go / ringbuffer.go (builds shimgen)
         gen = work.path("shimgen")
         src = os.path.join(C.REPO, "remote", "stream_writer.go")
         out_f = work.path("shim", "remote_stream_writer.go")
@@ -104,58 +117,148 @@ def _build(binary, work):
             return None, "stream_writer.go no longer imports \"net\" exactly once: " + out
     except RuntimeError as e:
         return None, str(e)
-    extra = dict(extra)
-    extra[os.path.join(C.REPO, "verifshim", "ynet", "ynet.go")] = os.path.join(C.VERIF, "tools", "verifshim", "ynet", "ynet.go")
-    extra[src] = out_f
-    return C.build_harness(work, binary, extra_overlay=extra)
+    repl.update(_hook_overlay(HOOKS_NET))
+    repl[os.path.join(C.REPO, "remote", "zz_verif_race17.go")] = os.path.join(C.VERIF, "tools", "hookx", "remote", "race17.go")
+    repl[os.path.join(C.REPO, "verifshim", "ynet", "ynet.go")] = os.path.join(C.VERIF, "tools", "verifshim", "ynet", "ynet.go")
+    repl[src] = out_f
+    return _go_build(work, "hvr", repl)
 
 
-def seen_coq(g):
-    return C.clist(["(%s, %s, %s)" % (C.cnat(min(x[0], 4999)), C.cnat(min(x[1], 4999)), C.cbool(x[2] == 1)) for x in g])
+WRAPPER = r'''#!/usr/bin/env python3
+# hvx: one harness front for both binaries of C17, so that the driver runs the network scenarios (hvn) and
+# the scheduler runs (hvr) side by side in its pool of harness processes.  Cases with a "kind" go to hvn
+# family remote17, the others to hvr family remote17race; order of the observations = order of the cases.
+import json, subprocess, sys
+HVN, HVR, HVR_ERR = %r, %r, %r
+lines = [l for l in sys.stdin if l.strip()]
+i = 0
+while i < len(lines):
+    race = "kind" not in json.loads(lines[i])
+    j = i
+    while j < len(lines) and ("kind" not in json.loads(lines[j])) == race:
+        j += 1
+    group = lines[i:j]
+    i = j
+    if race and not HVR:
+        for _ in group:
+            print(json.dumps({"build_failed": True, "err": HVR_ERR}))
+        sys.stdout.flush()
+        continue
+    p = subprocess.run([HVR, "remote17race"] if race else [HVN, "remote17"], input="".join(group), stdout=subprocess.PIPE, text=True)
+    sys.stdout.write(p.stdout)
+    sys.stdout.flush()
+    if p.returncode != 0:
+        sys.exit(p.returncode)
+'''
+
+
+def build(binary, work):
+    """builds hvn and hvr side by side and returns the front script hvx"""
+    import threading, stat
+    box = {}
+    th = threading.Thread(target=lambda: box.setdefault("r", _build_hvr(_SubWork(work, "build-hvr"))), daemon=True)
+    th.start()
+    hvn, out = _build_hvn(_SubWork(work, "build-hvn"))
+    th.join()
+    hvr, rout = box.get("r", (None, "background build failed"))
+    if hvn is None:
+        return None, out
+    p = work.path("hvx")
+    open(p, "w").write(WRAPPER % (hvn, hvr or "", "" if hvr else "the scheduler-shimmed harness (hvr) could not be built against this tree:\n" + rout[-2500:]))
+    os.chmod(p, os.stat(p).st_mode | stat.S_IXUSR | stat.S_IXGRP | stat.S_IXOTH)
+    return p, out + rout
+
+
+def runs_coq(runs, stride):
+    """what one recording actor saw, per sender and run-length encoded, as a Coq expression of type list seen"""
+    return "(expand_runs %s %s)" % (C.cnat(stride), C.clist(
+        ["(%s, %s, %s, %s)" % (C.cnat(min(r[0], 4999)), C.cnat(min(r[1], 4999)), C.cnat(min(r[2], 4999)), C.cbool(r[3] == 1)) for r in runs]))
 
 
 def bools(bs):
     return C.clist([C.cbool(b) for b in bs])
 
 
-class Net(Part):
-    name = "net"
-    family = "remote17"
+def robs_coq(o):
+    reg = o["reg"]
+    return "{| o_has := %s; o_reg := %s; o_dead := %s; o_wire := %s; o_stuck := %s; o_dups := %s |}" % (
+        C.cbool(o["has"]), "None" if reg == 0 else "(Some %s)" % C.cnat(reg - 1 if reg > 0 else 99),
+        C.clist([C.cnat(x) for x in o["dead"]]),
+        C.clist([C.clist([C.cnat(x) for x in w]) for w in (o.get("wire") or [])]),
+        C.clist([C.cnat(x) for x in (o.get("stuck") or [])]), C.cnat(o["dups"]))
+
+
+
+def is_race(inp):
+    return "kind" not in inp
+
+
+class All(Part):
+    """one part for both harness binaries (front script hvx): the network scenarios and the scheduler runs share
+    the driver's pool of harness processes, so the wall time is that of the slowest single case (an episode of
+    dial back-off) and the Coq side evaluates everything in one round"""
+    name = "all"
+    binary = "hvx"
+    family = "c17"
     exec_module = "RemoteExec"
-    shard = 10
+    shard = 6
     branch_names = {1: "several_senders", 2: "several_targets_on_a_peer", 3: "two_peers", 4: "sender_pids", 5: "replies_across_nodes",
                     6: "over_1000_messages", 7: "senders_without_pid", 10: "unreachable_episode", 11: "down_several_senders",
                     12: "fresh_attempt_delivered", 13: "several_dead_letters", 20: "start_twice", 21: "stop_twice",
-                    22: "start_after_stop", 23: "stop_before_start"}
-    crash_obs = {"kind": "crash", "err": "harness process died", "got": [], "hang": True}
+                    22: "start_after_stop", 23: "stop_before_start",
+                    30: "black_holed_terminal_state", 31: "every_machine_terminal_seen_on_the_implementation",
+                    32: "dead_letter_while_shutting_down", 33: "message_stuck_in_stopped_inbox", 34: "fresh_writer_spawned",
+                    35: "all_schedules_enumerated", 40: "reconnect_with_losses", 41: "reconnect_deliveries"}
+    crash_obs = {"kind": "crash", "err": "harness process died", "runs": [], "hang": True}
+
+    # ---------------------------------------------------------------- cases
+    def race_cases(self, rng, tier):
+        q = [dict(senders=[[2]], drop=True, mode="dfs", max_execs=2500),
+             dict(senders=[[2]], drop=True, mode="walk", max_execs=1500),
+             dict(senders=[[2, 3]], drop=True, mode="walk", max_execs=1200),
+             dict(senders=[[2]], drop=True, mode="replay", choices=D12_WITNESS),
+             dict(senders=[[2]], drop=False, mode="dfs", max_execs=2500)]
+        t = [dict(senders=[[2]], drop=True, mode="dfs", max_execs=400000),
+             dict(senders=[[2, 3]], drop=True, mode="walk", max_execs=30000),
+             dict(senders=[[2], [3]], drop=True, mode="walk", max_execs=30000),
+             dict(senders=[[2, 3, 4]], drop=True, mode="walk", max_execs=20000),
+             dict(senders=[[2, 3]], drop=True, mode="dfs", max_execs=80000)]
+        return [dict(c, seed=rng.randrange(1 << 30)) for c in (t if tier == "thorough" else []) + q]
 
     def generate(self, rng, tier):
-        cs = []
-        # the slow ones first, so that they land in different harness processes
+        thorough = tier == "thorough"
         downs = [dict(kind="down", ntargets=2, senders=[True, False, False], m=5, n=30)]
-        if tier == "thorough":
+        if thorough:
             downs += [dict(kind="down", ntargets=1, senders=[False], m=1, n=1),
                       dict(kind="down", ntargets=3, senders=[True, True], m=40, n=200),
                       dict(kind="down", ntargets=1, senders=[False, True, False, True], m=100, n=100),
                       dict(kind="down", ntargets=2, senders=[True], m=0, n=10)] + \
                      [dict(kind="down", ntargets=rng.randint(1, 3), senders=[rng.random() < 0.5 for _ in range(rng.randint(1, 4))],
                            m=rng.randint(1, 60), n=rng.randint(1, 100)) for _ in range(4)]
-        cs += downs
-        if tier == "thorough":
-            # the peer goes down and comes up again several times under a trickle of messages; then a fresh attempt must deliver
-            cs += [dict(kind="churn", cycles=10, gap_us=g, per=50) for g in (0, 30, 100, 300, 1000, 3000)]
-        cs += [dict(kind="stop", calls=["start", "stop"], engine_probe=True),
-               dict(kind="stop", calls=["start"], engine_probe=True)]
-        if tier == "thorough":
-            cs += [dict(kind="stop", calls=["start", "stop", "start"], engine_probe=True),
-                   dict(kind="stop", calls=["start", "stop", "stop"], engine_probe=True)]
-        big = tier != "quick"     # (the Coq side spends ~3 ms per received message just reading the observation)
-        ups = [dict(kind="up", peers=1, targets=[[1, 0], [1, 1], [1, 2]], senders=[True, False, True, False], per=600 if big else 300, requests=8),
-               dict(kind="up", peers=2, targets=[[1, 0], [2, 0], [1, 1]], senders=[True, True, False], per=400 if big else 200, requests=4),
-               dict(kind="up", peers=1, targets=[[1, 0]], senders=[True, True, True, True], per=1000 if big else 320, requests=0),
+        # senders that start at once at a peer nobody has talked to yet, with enough messages that the stream is
+        # still being set up while the first ones queue at the router (each round uses fresh addresses)
+        bursts = [dict(kind="up", peers=1, targets=[[1, 0]], senders=[False, False, False, False], per=1500, requests=0, rounds=3)]
+        # the peer is restarted on its address while senders keep sending bursts
+        reconnects = [dict(kind="reconnect", senders=[False, False], bursts=36, per=3000, gap_us=40000, restarts=1)]
+        probes = [dict(kind="stop", calls=["start", "stop"], engine_probe=True),
+                  dict(kind="stop", calls=["start"], engine_probe=True)]
+        churns = []
+        if thorough:
+            bursts += [dict(kind="up", peers=1, targets=[[1, 0]], senders=[True, False, True, False], per=4900, requests=0, rounds=2),
+                       dict(kind="up", peers=1, targets=[[1, 0], [1, 1]], senders=[False, True, False], per=3000, requests=0, rounds=3),
+                       dict(kind="up", peers=2, targets=[[1, 0], [2, 0]], senders=[False, False], per=4000, requests=2, rounds=3),
+                       dict(kind="up", peers=1, targets=[[1, 0]], senders=[False], per=4900, requests=0, rounds=4)]
+            reconnects += [dict(kind="reconnect", senders=[False, False], bursts=60, per=3000, gap_us=50000, restarts=2),
+                           dict(kind="reconnect", senders=[False, False, False], bursts=40, per=2000, gap_us=30000, restarts=3),
+                           dict(kind="reconnect", senders=[False], bursts=80, per=4000, gap_us=20000, restarts=2)]
+            churns = [dict(kind="churn", cycles=10, gap_us=g, per=50) for g in (0, 30, 100, 300, 1000, 3000)]
+            probes += [dict(kind="stop", calls=["start", "stop", "start"], engine_probe=True),
+                       dict(kind="stop", calls=["start", "stop", "stop"], engine_probe=True)]
+        ups = [dict(kind="up", peers=1, targets=[[1, 0], [1, 1], [1, 2]], senders=[True, False, True, False], per=600 if thorough else 300, requests=8),
+               dict(kind="up", peers=2, targets=[[1, 0], [2, 0], [1, 1]], senders=[True, True, False], per=400 if thorough else 200, requests=4),
+               dict(kind="up", peers=1, targets=[[1, 0]], senders=[True, True, True, True], per=1000 if thorough else 320, requests=0),
                dict(kind="up", peers=1, targets=[[1, 0]], senders=[False], per=200, requests=1)]
-        nrand = 2 if tier == "quick" else 24
-        for _ in range(nrand):
+        for _ in range(24 if thorough else 2):
             peers = rng.randint(1, 2)
             nt = rng.randint(1, 4)
             targets = [[rng.randint(1, peers), t] for t in range(nt)]
@@ -163,35 +266,48 @@ class Net(Part):
                 targets[0][0] = 2
             ns = rng.randint(1, 4)
             ups.append(dict(kind="up", peers=peers, targets=targets, senders=[rng.random() < 0.6 for _ in range(ns)],
-                            per=rng.randint(1, 300 if tier == "quick" else 1200), requests=rng.randint(0, 6)))
+                            per=rng.randint(1, 1200 if thorough else 300), requests=rng.randint(0, 6)))
         stops = []
-        maxlen = 4 if tier == "quick" else 5
-        for n in range(1, maxlen + 1):
+        for n in range(1, (5 if thorough else 4) + 1):
             for combo in itertools.product(["start", "stop"], repeat=n):
                 stops.append(dict(kind="stop", calls=list(combo), engine_probe=False))
-        # the big "up" cases are spread out: the Coq side evaluates blocks of `shard` consecutive cases
-        k = max(1, len(stops) // max(1, len(ups)))
-        while ups or stops:
-            if ups:
-                cs.append(ups.pop(0))
-            cs += stops[:k]
-            stops = stops[k:]
-        return [{"input": c, "class": c["kind"]} for c in cs]
+        races = self.race_cases(rng, tier)
+        # Order.  The driver deals the cases round robin to its harness processes (one per CPU) and the Coq side
+        # evaluates blocks of `shard` consecutive cases side by side.  So: everything that takes seconds comes
+        # first (one such case per process), costly evaluations (bursts, scheduler runs) are spread over the
+        # blocks, and the many instant Start/Stop cases come last.
+        slow = []
+        pools = [downs, bursts, reconnects, races, probes, churns]
+        while any(pools):
+            for pl in pools:
+                if pl:
+                    slow.append(pl.pop(0))
+        cs = slow + ups + stops
+        return [{"input": c, "class": ("race-" + c["mode"]) if is_race(c) else c["kind"]} for c in cs]
 
+    # ---------------------------------------------------------------- Coq terms
     def to_coq(self, inp, obs):
+        if is_race(inp):
+            return self.race_to_coq(inp, obs)
         bad = bool(obs.get("err")) or obs.get("kind") != inp["kind"]
+        if inp["kind"] == "reconnect":
+            return "KReconnect {| k_bursts := %s; k_per := %s; k_got := %s |}" % (
+                C.cnat(inp["bursts"]), C.cnat(inp["per"]),
+                # an observation that could not be made is rendered as a repeated message
+                "[[(0%nat, 0%nat, 1%nat); (0%nat, 0%nat, 1%nat)]]" if bad else
+                C.clist([C.clist(["(%s, %s, %s)" % tuple(C.cnat(min(v, 4999)) for v in r) for r in rs]) for rs in (obs.get("bruns") or [])]))
         if inp["kind"] == "churn":
             # what is checked is the fresh attempt at the end: one sender, one target, `per` messages
             inp = dict(kind="up", peers=1, targets=[[1, 0]], senders=[False], per=inp["per"], requests=0)
             obs = dict(obs, kind="up" if obs.get("kind") == "churn" else obs.get("kind"))
         if inp["kind"] == "up":
-            got = obs.get("got") or []
+            runs = obs.get("runs") or []
             return ("KUp {| u_peers := %s; u_targets := %s; u_senders := %s; u_per := %s; u_batch := %s; u_got := %s; "
                     "u_requests := %s; u_replies := %s |}") % (
                 C.clist([C.cnat(p) for p in range(1, inp["peers"] + 1)]),
                 C.clist(["(%s, %s)" % (C.cnat(t[0]), C.cnat(t[1])) for t in inp["targets"]]),
                 bools(inp["senders"]), C.cnat(inp["per"]), C.cnat(63),
-                C.clist([seen_coq(g) for g in got]) if not bad else "[]",
+                C.clist([runs_coq(g, len(inp["targets"])) for g in runs]) if not bad else "[]",
                 C.cnat(inp["requests"]), C.cnat(min(obs.get("replies", 0), 4999)))
         if inp["kind"] == "down":
             return ("KDown {| d_targets := %s; d_senders := %s; d_m := %s; d_n := %s; d_unreach1 := %s; d_dead1 := %s; d_got1 := %s; "
@@ -200,7 +316,8 @@ class Net(Part):
                 C.cnat(min(obs.get("unreach1", 0), 4999) if not bad else 4999),
                 C.clist(["(%s, %s, %s)" % tuple(C.cnat(min(v, 4999)) for v in x) for x in (obs.get("dead1") or [])]),
                 C.cnat(min(obs.get("got1", 0), 4999)), C.cnat(min(obs.get("unreach2", 0), 4999)),
-                C.cnat(min(obs.get("dead2", 0), 4999)), C.clist([seen_coq(g) for g in (obs.get("got") or [])]))
+                C.cnat(min(obs.get("dead2", 0), 4999)),
+                C.clist([runs_coq(g, inp["ntargets"]) for g in (obs.get("runs") or [])]))
         calls = obs.get("calls") or []
         probe = obs.get("probe") or []
         if inp.get("engine_probe") and not probe:
@@ -210,8 +327,43 @@ class Net(Part):
             C.clist(["(%s, %s)" % (C.cbool(x[0]), C.cbool(x[1])) for x in calls]) if not bad else "[]",
             bools(probe))
 
+    def race_to_coq(self, inp, obs):
+        terms = list(obs.get("terminals") or [])
+        order = ""
+        for t in terms:
+            if t.get("order"):
+                order = t["order"]
+                break
+        bad_run = bool(obs.get("build_failed")) or obs.get("stuck", 0) > 0 or obs.get("deadlocks", 0) > 0 or not terms
+        if bad_run:
+            # no harness, or a stuck or deadlocked execution: rendered as an observation that no machine run has
+            # (so the correspondence fails) but that the oracle has nothing against
+            terms = terms + [dict(has=True, reg=-1, dead=[4999], wire=[], stuck=[], dups=0)]
+        return ("KRace {| r_order := %s; r_senders := %s; r_drop := %s; r_exhaustive := %s; r_terms := %s |}") % (
+            ORDER.get(order, "Repaired"),
+            C.clist([C.clist([C.cnat(n) for n in ms]) for ms in inp["senders"]]), C.cbool(inp["drop"]),
+            C.cbool(bool(obs.get("exhaustive")) and inp["mode"] == "dfs"),
+            C.clist([robs_coq(t) for t in terms if t.get("terminal", True) or bad_run]))
+
+    # ---------------------------------------------------------------- evidence, shrinking, printing
+    def extra_coverage(self, inputs, obs):
+        pairs = [(i["input"], o) for i, o in zip(inputs, obs) if is_race(i["input"]) and not o.get("build_failed")]
+        return dict(
+            schedules_enumerated=sum(o.get("executions", 0) for _, o in pairs),
+            states=sum(o.get("states", 0) for _, o in pairs),
+            transitions=sum(o.get("transitions", 0) for _, o in pairs),
+            distinct_terminal_observations=sum(len(o.get("terminals") or []) for _, o in pairs),
+            exhaustive_configs=sum(1 for i, o in pairs if i["mode"] == "dfs" and o.get("exhaustive")),
+            configs=[{"senders": i["senders"], "drop": i["drop"], "mode": i["mode"], "executions": o.get("executions"),
+                      "states": o.get("states"), "exhaustive": o.get("exhaustive"), "black_holed": len(o.get("bad") or [])}
+                     for i, o in pairs],
+            messages_over_tcp=sum(sum(o.get("received") or []) + sum(sum(r[2] for r in rs) for rs in (o.get("bruns") or []))
+                                  for i, o in zip(inputs, obs) if not is_race(i["input"])))
+
     def shrink(self, inp):
         out = []
+        if is_race(inp):
+            return out
         if inp["kind"] == "up":
             if inp["per"] > 1:
                 out.append(dict(inp, per=inp["per"] // 2))
@@ -231,99 +383,35 @@ class Net(Part):
                 out.append(dict(inp, senders=inp["senders"][:-1]))
             if inp["ntargets"] > 1:
                 out.append(dict(inp, ntargets=inp["ntargets"] - 1))
-        else:
+        elif inp["kind"] == "reconnect":
+            if len(inp["senders"]) > 1:
+                out.append(dict(inp, senders=inp["senders"][:-1]))
+            if inp["bursts"] > 8:
+                out.append(dict(inp, bursts=inp["bursts"] // 2))
+        elif inp["kind"] == "stop" and not inp.get("engine_probe"):
             cs = inp["calls"]
-            if not inp.get("engine_probe"):
-                for i in range(len(cs)):
-                    if len(cs) > 1:
-                        out.append(dict(inp, calls=cs[:i] + cs[i + 1:]))
+            for i in range(len(cs)):
+                if len(cs) > 1:
+                    out.append(dict(inp, calls=cs[:i] + cs[i + 1:]))
         return out
 
     def describe_obs(self, obs):
+        if "terminals" in obs or obs.get("build_failed"):
+            d = {k: obs.get(k) for k in ("executions", "states", "transitions", "exhaustive", "stuck", "deadlocks", "build_failed", "err")
+                 if obs.get(k) is not None}
+            d["terminals"] = obs.get("terminals")
+            if obs.get("bad"):
+                b = obs["bad"][0]
+                d["black_holed_schedule"] = {"choices": b["choices"], "sched": b["sched"], "obs": b["obs"],
+                                             "trace": [[e["g"], e["op"]] + list(e.get("a") or []) for e in b["trace"]]}
+            return d
         d = dict(obs)
-        if d.get("got"):
-            d["got"] = [{"received": len(g), "first": g[:4]} for g in d["got"]]
+        for k in ("runs", "bruns"):
+            if d.get(k):
+                d[k] = [rs if len(rs) <= 12 else rs[:12] + ["... %d runs in all" % len(rs)] for rs in d[k]]
         if d.get("dead1") and len(d["dead1"]) > 8:
             d["dead1"] = d["dead1"][:8] + ["... %d in all" % len(obs["dead1"])]
         return d
 
 
-def robs_coq(o):
-    reg = o["reg"]
-    return "{| o_has := %s; o_reg := %s; o_dead := %s; o_wire := %s; o_stuck := %s; o_dups := %s |}" % (
-        C.cbool(o["has"]), "None" if reg == 0 else "(Some %s)" % C.cnat(reg - 1 if reg > 0 else 99),
-        C.clist([C.cnat(x) for x in o["dead"]]),
-        C.clist([C.clist([C.cnat(x) for x in w]) for w in (o.get("wire") or [])]),
-        C.clist([C.cnat(x) for x in (o.get("stuck") or [])]), C.cnat(o["dups"]))
-
-
-class Race(Part):
-    name = "race"
-    binary = "hvr"
-    family = "remote17race"
-    exec_module = "RemoteExec"
-    shard = 1
-    branch_names = {30: "black_holed_terminal_state", 31: "every_machine_terminal_seen_on_the_implementation",
-                    32: "dead_letter_while_shutting_down", 33: "message_stuck_in_stopped_inbox", 34: "fresh_writer_spawned",
-                    35: "all_schedules_enumerated"}
-
-    def generate(self, rng, tier):
-        q = [dict(senders=[[2]], drop=True, mode="replay", choices=D12_WITNESS),
-             dict(senders=[[2]], drop=True, mode="dfs", max_execs=2500),
-             dict(senders=[[2]], drop=True, mode="walk", max_execs=1500),
-             dict(senders=[[2, 3]], drop=True, mode="walk", max_execs=1200),
-             dict(senders=[[2]], drop=False, mode="dfs", max_execs=2500)]
-        t = [dict(senders=[[2]], drop=True, mode="dfs", max_execs=400000),
-             dict(senders=[[2, 3]], drop=True, mode="walk", max_execs=30000),
-             dict(senders=[[2], [3]], drop=True, mode="walk", max_execs=30000),
-             dict(senders=[[2, 3, 4]], drop=True, mode="walk", max_execs=20000),
-             dict(senders=[[2, 3]], drop=True, mode="dfs", max_execs=80000)]
-        cs = q + (t if tier == "thorough" else [])
-        out = []
-        for c in cs:
-            c = dict(c, seed=rng.randrange(1 << 30))
-            out.append({"input": c, "class": c["mode"]})
-        return out
-
-    def to_coq(self, inp, obs):
-        terms = list(obs.get("terminals") or [])
-        order = ""
-        for t in terms:
-            if t.get("order"):
-                order = t["order"]
-                break
-        bad_run = obs.get("stuck", 0) > 0 or obs.get("deadlocks", 0) > 0 or not terms
-        if bad_run:
-            # a stuck or deadlocked execution is not a terminal observation of the machine: make the case fail
-            terms = terms + [dict(has=True, reg=-1, dead=[4999], wire=[], stuck=[], dups=4999)]
-        return ("KRace {| r_order := %s; r_senders := %s; r_drop := %s; r_exhaustive := %s; r_terms := %s |}") % (
-            ORDER.get(order, "Repaired"),
-            C.clist([C.clist([C.cnat(n) for n in ms]) for ms in inp["senders"]]), C.cbool(inp["drop"]),
-            C.cbool(bool(obs.get("exhaustive")) and inp["mode"] == "dfs"),
-            C.clist([robs_coq(t) for t in terms if t.get("terminal", True) or bad_run]))
-
-    def extra_coverage(self, inputs, obs):
-        return dict(
-            schedules_enumerated=sum(o.get("executions", 0) for o in obs),
-            states=sum(o.get("states", 0) for o in obs),
-            transitions=sum(o.get("transitions", 0) for o in obs),
-            distinct_terminal_observations=sum(len(o.get("terminals") or []) for o in obs),
-            exhaustive_configs=sum(1 for i, o in zip(inputs, obs) if i["input"]["mode"] == "dfs" and o.get("exhaustive")),
-            configs=[{"senders": i["input"]["senders"], "drop": i["input"]["drop"], "mode": i["input"]["mode"],
-                      "executions": o.get("executions"), "states": o.get("states"), "exhaustive": o.get("exhaustive"),
-                      "black_holed": len(o.get("bad") or [])} for i, o in zip(inputs, obs)])
-
-    def shrink(self, inp):
-        return []
-
-    def describe_obs(self, obs):
-        d = {k: obs.get(k) for k in ("executions", "states", "transitions", "exhaustive", "stuck", "deadlocks")}
-        d["terminals"] = obs.get("terminals")
-        if obs.get("bad"):
-            b = obs["bad"][0]
-            d["black_holed_schedule"] = {"choices": b["choices"], "sched": b["sched"], "obs": b["obs"],
-                                         "trace": [[e["g"], e["op"]] + list(e.get("a") or []) for e in b["trace"]]}
-        return d
-
-
-PARTS = [Net(), Race()]
+PARTS = [All()]
